@@ -315,3 +315,33 @@ Example mem_conc_example :
     [([(ml_ih, [], [([2], 100)])], 0, 1); ([], 0, 0)] ∧
   locks final.1 = [lock_free; lock_free].
 Proof. by vm_compute. Qed.
+
+(* ---- program order for request threads: the steps thread i has committed are the first steps of its
+   operation list, in order (as shard / mode / step-function triples); all of them once it has finished *)
+Lemma cops_prog_commits n os :
+  prog_commits (cops_prog n os) = map (λ o, (op_shard (cop_mop n o), op_write (cop_mop n o), op_fun (cop_mop n o))) os.
+Proof. unfold cops_prog, prog_commits. induction os as [|o os IH]; [done|]. cbn [map concat mop_script app omap list_omap act_commit]. by rewrite IH. Qed.
+Lemma cops_prog_no_plan n os : Forall no_plan (cops_prog n os).
+Proof.
+  unfold cops_prog. induction os as [|o os IH]; [constructor|]. cbn [map concat].
+  apply Forall_app. split; [|exact IH]. unfold mop_script. repeat constructor.
+Qed.
+
+Theorem mem_requests_program_order n (st : mstore) (oss : list (list cop)) sched i os :
+  oss !! i = Some os →
+  let m0 := (msh_init st, map mthread_of (map (cops_prog n) oss)) in
+  ∃ t k, (run (msem false) sched m0).2 !! i = Some t ∧
+    thread_commits i (trace (msem false) sched m0) =
+      map (λ o, (op_shard (cop_mop n o), op_write (cop_mop n o), op_fun (cop_mop n o))) (firstn k os) ∧
+    (todo t = [] → k = length os).
+Proof.
+  intros Hi m0.
+  assert (map (cops_prog n) oss !! i = Some (cops_prog n os)) as Hp by (by rewrite list_lookup_fmap, Hi).
+  destruct (commits_in_program_order false st (map (cops_prog n) oss) sched i (cops_prog n os) Hp (cops_prog_no_plan n os))
+    as (t & Ht & Hsplit & Hfin). fold m0 in Ht, Hsplit, Hfin.
+  rewrite cops_prog_commits in Hsplit, Hfin.
+  set (done_ := thread_commits i (trace (msem false) sched m0)) in *.
+  exists t, (length done_). split; [done|]. split.
+  - rewrite <-firstn_map, <-Hsplit. symmetry. apply take_app.
+  - intros Hd. rewrite (Hfin Hd), map_length. done.
+Qed.
